@@ -202,6 +202,19 @@ CHECKS["C04"] = {
     ],
 }
 
+CHECKS["C05"] = {
+    "pkg": "c05",
+    "level": "exploration",
+    "technique": "generated MVCC histories with leftover locks (writers crashed at drawn points) x generated reader specifications (four access paths, bounds, batch sizes, key-only, cold/warm cache, topology change at a gate, SetSnapshotTS); oracle = truth(ts) computed from the raw MVCC records after recovery, compared exactly with every read",
+    "level_text": "Thousands of generated (history, reader) pairs per run on mocktikv (1 or 3 stores, reverse scans, virtual clock) and unistore (async-commit / 1PC leftovers; no reverse scans, see DESIGN.md). Every read is executed twice and again after SetSnapshotTS; all paths are compared with the same ground truth, which also makes them agree with each other.",
+    "level_note": "Trusted: mocktikv (C12) and unistore as stores; ground truth is read through MvccGetByKey after all locks were resolved by an auditor client.",
+    "tests": [
+        {"name": "TestSnapshotReads", "quick": 600, "thorough": 4000, "shards": 16, "timeout_q": 400},
+        {"name": "TestSnapshotReadsUni", "quick": 300, "thorough": 2000, "shards": 16, "timeout_q": 400},
+        {"name": "TestKnownFindings", "quick": 1, "thorough": 1, "shards": 1},
+    ],
+}
+
 # properties without a registered check, with the reason (kept current by hand)
 NOT_CLAIMED = {}
 
